@@ -33,7 +33,7 @@ SCHEMA = '''<xs:schema xmlns:xs="http://www.w3.org/2001/XMLSchema" elementFormDe
     %(avelem)s
     <xs:any namespace="##other" processContents="lax" minOccurs="0" maxOccurs="unbounded"/>
    </xs:sequence>
-   <xs:anyAttribute namespace="##other" processContents="lax"/>
+   <xs:anyAttribute namespace="##other" processContents="lax"%(notq)s/>
    %(assert)s
   </xs:complexType>
   <xs:key name="K"><xs:selector xpath="item"/><xs:field xpath="@k"/></xs:key>
@@ -90,7 +90,8 @@ AVTYPE11 = ('<xs:simpleType name="AssertVal"><xs:restriction base="xs:integer"><
 
 def schema_text(version):
     v11 = version == '1.1'
-    return SCHEMA % {'assert': ASSERT11 if v11 else '', 'avelem': AVELEM11 if v11 else '', 'avtype': AVTYPE11 if v11 else ''}
+    return SCHEMA % {'assert': ASSERT11 if v11 else '', 'avelem': AVELEM11 if v11 else '', 'avtype': AVTYPE11 if v11 else '',
+                     'notq': ' notQName="##defined"' if v11 else ''}
 
 XSI = 'xmlns:xsi="http://www.w3.org/2001/XMLSchema-instance"'
 
